@@ -844,3 +844,37 @@ package expr
 //@       modifies fkLastKey, fkLastFound, fkLastRecv
 //@   callspec (*MappedAttributeExpr).Map params ma elemName attName
 //@       requires* only.attributes.without.a.header.of.their.own: fkLastKey == attName && !fkLastFound && fkLastRecv == ma && elemName == "goa-attribute-" + attName
+
+// ---- the request body is what is left of the payload (C02) ------------------------------------------
+// "body = payload minus everything mapped elsewhere": for a payload found to be an object (and not a union), without an explicit Body, the
+// function answers "no body" only after it has built the body attribute from the payload and found that the
+// removals left it without attributes -- never from a count of mapped names (an attribute mapped to two
+// locations would be counted twice and another one silently lose its place in the request).
+//@ smt (declare-fun asObjSpec (Iface) Int)
+//@ smt (declare-fun isObjSpec (Iface) Bool)
+//@ smt (declare-fun isUnionSpec (Iface) Bool)
+//@ ghost spec var bodyMA Int
+//@ ghost spec var sawObject Bool
+//@ ghost spec var sawUnion Bool
+//@ func httpRequestBody
+//@   params a
+//@   property C02
+//@   opt inline none
+//@   opt loopframes none
+//@   requires a != nil && bodyMA == 0 && !sawObject && !sawUnion
+//@   unknown_calls_preserve global(Empty)
+//@   callspec AsObject params dt
+//@       ensures result == ptr(*Object, asObjSpec(dt))
+//@       modifies nothing
+//@   callspec IsObject params dt
+//@       ensures result == isObjSpec(dt) && sawObject == result
+//@       modifies sawObject
+//@   callspec IsUnion params dt
+//@       ensures result == isUnionSpec(dt) && sawUnion == result
+//@       modifies sawUnion
+//@   callspec NewMappedAttributeExpr params att
+//@       ensures bodyMA == result && result != nil
+//@       modifies bodyMA
+//@   let bm = ptr(*MappedAttributeExpr, bodyMA)
+//@   let left = ptr(*Object, asObjSpec(bm.AttributeExpr.Type))
+//@   ensures* no.body.only.when.nothing.is.left: old(a.Body) == nil && !sawUnion && sawObject && result != nil && typeIs(result.Type, *UserTypeExpr) && result.Type.val == Empty ==> bodyMA != 0 && len(load(left)) == 0
